@@ -198,6 +198,44 @@ def check(run, replay_case=None):
                     run.violation('truncated-header-accepted', 'a message shorter than the header was decoded', dict(case, truncated_to=t), observed=e['ok'])
                 elif 'panic' in e:
                     run.violation('reader-panic site=%s' % e['panic']['site'], 'single-object reader panicked', dict(case, truncated_to=t), observed=e)
+    if replay_case is None:
+        typed_stage(run)
+
+
+def typed_stage(run):
+    """the typed API (SpecificSingleObjectWriter<T> built in every documented way, typed and generic readers) over the C16 corpus types"""
+    from .. import driver
+    from . import corpus_common as CC
+    driver.build('avmon-corpus')
+    types = CC.run_corpus(run, 'c18', 8 if run.quick() else 12)
+    for t in types:
+        run.evaluations += t['checks']
+        run.count('typed_single_object_messages', t['checks'])
+        run.distinct.add(('typed:%s' % t['name']).encode())
+        for v in t['violations']:
+            run.violation('typed T=%s %s' % (t['name'], v['sig']), '%s: %s (%d occurrences); first: %s' % (t['name'], v['sig'], v['count'], json.dumps(v['first'])[:300]),
+                          {'type': t['name'], 'schema': t.get('schema_json'), 'witness': v['first']}, observed=v)
+        for smp in t.get('samples', []):
+            msg = bytes.fromhex(smp['message'])
+            try:
+                ref_pcf = pcf.pcf(json.loads(smp['schema_json']))
+            except Exception:
+                run.count('typed_schemas_the_reference_cannot_canonicalise')
+                continue
+            run.count('typed_headers_checked_against_the_reference')
+            exp_header = b'\xc3\x01' + crc64.fingerprint_le(ref_pcf.encode('utf-8'))
+            case = {'type': t['name'], 'via': smp['via'], 'schema': smp['schema_json']}
+            if msg[:10] != exp_header:
+                lib_expected = b'\xc3\x01' + crc64.fingerprint_le((smp.get('pcf') or '').encode('utf-8'))
+                if msg[:10] != lib_expected:
+                    run.violation('typed-header-is-not-the-fingerprint-of-the-canonical-form via=%s' % smp['via'],
+                                  'header of a message of the typed writer is not C3 01 + CRC-64-AVRO (LE) of the canonical form of the schema it encodes with', case,
+                                  observed=msg[:10].hex(), expected=exp_header.hex())
+                else:
+                    for sg in attr_sigs(smp.get('pcf'), ref_pcf):
+                        run.violation('header-fingerprint-differs-from-spec cause=pcf:%s' % sg, 'the header fingerprint is computed over a canonical form that deviates from the specification (see C12)',
+                                      case, observed=msg[:10].hex(), expected=exp_header.hex())
+    run.cov['typed_corpus_types'] = len(types)
 
 
 def prev_kind(steps, i):
